@@ -559,6 +559,8 @@ def schedule_case(arg):
             def permuted(*a):
                 idx = list(range(*a))
                 prng.shuffle(idx)
+                if len(idx) > 1 and idx == sorted(idx):   # never the serial order (probability 1/n! per loop otherwise)
+                    idx = idx[1:] + idx[:1]
                 orders.append(idx)
                 return idx
             log_o, log_a = _Log(), _Log()
